@@ -84,4 +84,5 @@ class PandasDataFrameCache(FileCache):
             df = df.sort_index(kind='stable')
             df = df[~df.index.duplicated(keep='first')]
             update_applied = self.update_file(file_name, serialize_df(df))
-            return df if update_applied else self.update(file_name, new_df)
+        # retry after the per-file lock has been released: it is not reentrant
+        return df if update_applied else self.update(file_name, new_df)
